@@ -509,18 +509,22 @@ struct Hist {
     void run() { run_case(G.out, KIND_NAME[G.ki], payload()); }
 };
 
-static size_t rand_len(Rng& g) {
+// history length tied to the pool size P: enough operations to fill and churn the pool, <= 200
+// (the model costs ~0.5 ms per hash, so lengths are kept no longer than the pool needs)
+static size_t rand_len(Rng& g, size_t P) {
     unsigned r = (unsigned)g.below(100);
-    if (r < 40) return 1 + (size_t)g.below(20);
-    if (r < 80) return 20 + (size_t)g.below(61);
-    return 80 + (size_t)g.below(121);
+    size_t L;
+    if (r < 15) L = 1 + (size_t)g.below(P);
+    else if (r < 85) L = P + (size_t)g.below(P + 1);
+    else L = 3 * P + (size_t)g.below(3 * P + 1);
+    return L > 200 ? 200 : L;
 }
 
 static const std::string& pick(Rng& g, const std::vector<std::string>& v) { return v[g.below(v.size())]; }
 
 static void choose_cap_target(Gen& G, uint64_t& c, uint64_t& t) {
     unsigned r = (unsigned)G.g.below(100);
-    c = r < 30 ? 8 : r < 55 ? 16 : r < 75 ? 32 : r < 90 ? 64 : 128;
+    c = r < 35 ? 8 : r < 65 ? 16 : r < 85 ? 32 : r < 95 ? 64 : 128;
     r = (unsigned)G.g.below(100);
     const char* name;
     if (r < 30) {
@@ -568,7 +572,7 @@ static void gen_mix(Gen& G) {
     size_t P = (size_t)(c / 4 + G.g.below(c / 2 + 1) + 2);
     Pool p = make_pool(G, c, P, t);
     Hist h(G);
-    mix_ops(h, p, rand_len(G.g));
+    mix_ops(h, p, rand_len(G.g, P));
     if (G.g.chance(50)) h.iter();
     G.out.count("shape:mix");
     h.run();
@@ -585,7 +589,7 @@ static void gen_resize_first(Gen& G) {
     if (G.g.chance(30))
         for (size_t i = 0; i < 1 + G.g.below(4); i++) h.set(pick(G.g, p.keys));
     h.resize(c);
-    mix_ops(h, p, rand_len(G.g));
+    mix_ops(h, p, rand_len(G.g, P));
     G.out.count("shape:resize-first");
     h.run();
 }
@@ -641,7 +645,7 @@ static void gen_fill_del(Gen& G) {
         h.del(victims[i]);
         deleted.push_back(victims[i]);
         h.query(victims[i]);
-        for (unsigned j = 0; j < 2 && h.toks.size() < 160; j++) h.query(pick(g, g.coin() ? victims : p.keys));
+        if (h.toks.size() < 160) h.query(pick(g, g.coin() ? victims : p.keys));
     }
     if (g.coin()) h.iter();
     // re-insert after delete
@@ -686,10 +690,8 @@ static void gen_growth(Gen& G, size_t n) {
     h.set(absent2);
     h.query(absent1);
     h.query(absent2);
-    if (n <= 700) {
-        h.copy();
-        h.iter();
-    }
+    if (n <= 130) h.copy();
+    if (n <= 700) h.iter();
     G.out.count("shape:growth-n");
     G.out.count(std::string("growth-n:") + bucket(n));
     h.run();
@@ -752,7 +754,9 @@ int main(int argc, char** argv) {
             Gen G(g, out, ki);
             gen_growth(G, n);
         }
-    // growth straddling, long: every threshold (count == capacity/2) -1, exactly, +1
+    // growth straddling, long: every threshold (count == capacity/2) -1, exactly, +1.
+    // The model spends ~0.5 ms per hash, hence: all four kinds up to n = 129, above that one kind
+    // per n (rotating with the seed).
     {
         std::vector<size_t> ns;
         size_t top = thorough ? 4096 : 512;
@@ -761,19 +765,20 @@ int main(int argc, char** argv) {
             ns.push_back(half);
             ns.push_back(half + 1);
         }
+        int rot = (int)(seed % 4);
         for (size_t i = 0; i < ns.size(); i++) {
-            if (ns[i] <= 600) {
+            if (ns[i] <= 129) {
                 for (int ki = 0; ki < 4; ki++) {
                     Gen G(g, out, ki);
                     gen_growth(G, ns[i]);
                 }
-            } else {  // very long: one kind each (the model is O(capacity) per operation)
-                Gen G(g, out, (int)(i % 4));
+            } else {
+                Gen G(g, out, (int)((i + rot) % 4));
                 gen_growth(G, ns[i]);
             }
         }
-        int ki = 0;
-        for (size_t n = 41; n <= 600; n += 13, ki = (ki + 1) % 4) {
+        int ki = rot;
+        for (size_t n = 41; n <= 600; n += (thorough ? 13 : 61), ki = (ki + 1) % 4) {
             Gen G(g, out, ki);
             gen_growth(G, n);
         }
@@ -786,17 +791,20 @@ int main(int argc, char** argv) {
             }
         }
     }
-    // one table per kind through every count 0..n..0
+    // one table through every count 0..n..0, probing after every step: n = 600 (thorough 2500) for
+    // one kind (rotating with the seed), n = 150 (thorough 600) for the others
     for (int ki = 0; ki < 4; ki++) {
         Gen G(g, out, ki);
-        gen_long_sweep(G, thorough ? 2500 : 600);
+        bool big = ki == (int)(seed % 4);
+        gen_long_sweep(G, thorough ? (big ? 2500 : 600) : (big ? 600 : 150));
     }
 
     // ---- random adversarial histories -------------------------------------------------------
-    long N = thorough ? 250000 : 4000;
+    // (thorough is 20x quick, not 50-100x: the model driver needs ~0.4 ms per operation)
+    long N = thorough ? 50000 : 2500;
     for (long i = 0; i < N; i++) {
         unsigned r = (unsigned)g.below(100);
-        int ki = r < 34 ? 0 : r < 56 ? 1 : r < 78 ? 2 : 3;
+        int ki = r < 46 ? 0 : r < 64 ? 1 : r < 82 ? 2 : 3;
         Gen G(g, out, ki);
         r = (unsigned)g.below(100);
         if (r < 55) gen_mix(G);
